@@ -56,7 +56,8 @@ func (c *PContacts) More() bool {
 
 // Reset re-initializes the parsed values.
 func (c *PContacts) Reset() {
-	for i := 0; i < c.VNo(); i++ {
+	// reset also Vals[N]: it might contain a partially parsed value
+	for i := 0; i <= c.N && i < len(c.Vals); i++ {
 		c.Vals[i].Reset()
 	}
 	v := c.Vals
